@@ -137,7 +137,7 @@ func run(c *hlib.Ctx) *hlib.Run {
 
 	rep := sim.Run(func() {
 		// ---- world ---------------------------------------------------------
-		threshold := []float64{0.7, 0.75, 0.8, 0.8, 0.9, 1.0, 0.5, 0.85, 0.95}[s.Draw(9, "threshold")]
+		threshold := []float64{0.7, 0.75, 0.8, 0.8, 0.9, 1.0, 0.85, 0.95}[s.Draw(8, "threshold")] // not below 0.7: q-grams of one or two words make a single Match of a long input take tens of seconds
 		var idx []int
 		full := s.Draw(12, "full-corpus") == 0
 		if full {
@@ -215,6 +215,27 @@ func run(c *hlib.Ctx) *hlib.Run {
 				extra = append(extra, unrelatedDoc(s, k))
 			}
 			insts = append(insts, build(s.Perm(len(world), "insertion-perm"), extra, fmt.Sprintf("permuted+%d-unrelated", len(extra))))
+		}
+		if !full && s.Draw(3, "instance-with-replaced-document") == 0 {
+			// An instance on which one document first had ANOTHER text under the
+			// same name, served some Match calls, and was then given its final
+			// text: from here on its corpus is the same set of documents.
+			k := s.Draw(len(world), "replaced-doc")
+			other := world[s.Draw(len(world), "replaced-doc-old-text")].Data
+			cl := classifier.NewClassifier(threshold)
+			for i, d := range world {
+				data := d.Data
+				if i == k {
+					data = other
+				}
+				cl.AddContent(d.Category, d.Name, d.Variant, append([]byte(nil), data...))
+			}
+			for w := 0; w < 1+s.Draw(3, "warm-up-calls"); w++ {
+				cl.Match(append([]byte(nil), world[s.Draw(len(world), "warm-up-input")].Data...))
+			}
+			cl.AddContent(world[k].Category, world[k].Name, world[k].Variant, append([]byte(nil), world[k].Data...))
+			insts = append(insts, instance{"document-replaced-after-matches", cl})
+			out.Counters["instances_with_replaced_document"]++
 		}
 		if !full && s.Draw(4, "instance-from-directory") == 0 {
 			// a separately built instance populated through LoadLicenses
@@ -362,6 +383,10 @@ func run(c *hlib.Ctx) *hlib.Run {
 				} else {
 					ph := []string{"*", "searchset", "score", "tokenize", "frequency", "tokenize,score", "searchset,score", ""}[s.Draw(8, "trace-phases")]
 					li := []string{"*", "*", "License/*", "License/MIT*", "License/Apache*", "Header/*", "License/BSD-3-Clause/license.txt", ""}[s.Draw(8, "trace-licenses")]
+					if len(world) > 100 && (li == "*" || li == "License/*") {
+						// dumping every intermediate structure for hundreds of documents costs tens of seconds per call
+						li = "License/GPL*"
+					}
 					n := 0
 					insts[cur].c.SetTraceConfiguration(&classifier.TraceConfiguration{TracePhases: ph, TraceLicenses: li, Tracer: func(string, ...interface{}) { n++ }})
 					traceOn = fmt.Sprintf("phases=%q licenses=%q", ph, li)
